@@ -333,6 +333,8 @@ type tunnelServerStream struct {
 	sender     sender
 	receiver   receiver[tunnelpb.ClientToServerFrame]
 	halfClosed atomic.Pointer[errHolder]
+	// outcome of the first call to finishStream
+	finished atomic.Pointer[errHolder]
 
 	// for reading frames from channel, to read message data
 	readMu  sync.Mutex
@@ -621,6 +623,11 @@ func (st *tunnelServerStream) serveStream(md interface{}, srv interface{}) {
 }
 
 func (st *tunnelServerStream) finishStream(err error) {
+	// The first call decides the outcome. Cancelling the context below can
+	// make the handler return a context error and reach the lock before us;
+	// it must still report the error that ended the stream.
+	st.finished.CompareAndSwap(nil, &errHolder{err})
+	err = st.finished.Load().error
 	st.cancel()
 	st.svr.removeStream(st.streamID)
 	st.halfClose(err)
